@@ -2,6 +2,7 @@ import FsutilModel.Prune
 import FsutilModel.PruneSyn
 import FsutilModel.Model.Filter
 import FsutilModel.Lemmas.C10
+import FsutilModel.Lemmas.C10Walk
 /-! # C10 — Filtered walk; pruning is unobservable -/
 namespace Fsm.C10
 open P F
@@ -136,5 +137,27 @@ theorem literal_prune_unobservable (ps : List P.Pat) (hps : ps ≠ []) (Ip : Lis
 example : (parsePattern [97, 47, 98]).map (fun p => (p.mt, decide (withoutTrailingGlob true p = p.text))) = some (.exact, true) := by decide
 example : (parsePattern [97, 47, 42, 42]).map (fun p => (p.mt, decide (p.text = withoutTrailingGlob true p ++ [47, 42, 42]))) = some (.prefix_, true) := by
   decide
+
+
+/-! ## The filtered walk against the naive reference, for whole listings
+
+`filterFS.Walk` (and the copier) thread `MatchesUsingParentResults` down the walk; `filterFS.Open` and the naive reference
+use the stateless `MatchesOrParentMatches`. Known finding F5 is that the two differ under negations. Without negations
+they are the same function, and then the filtered walk of every canonical listing (the premise `C16W.Canon` is evaluated
+on the listings the real walk produced) reports exactly what the reference keeps. -/
+
+/-- parent-result matching along the ancestors of a path = stateless matching, for every negation-free pattern list -/
+theorem chain_matching_is_stateless_without_negations (ps : List P.Pat) (hneg : ∀ p ∈ ps, p.neg = false) (path : List Nat)
+    (hfirst : ∀ q rest, P.parentPrefixes path ++ [path] = q :: rest → P.parentPrefixes q = []) :
+    C.uprChain ps path = P.matchesOrParent ps path :=
+  C10C.chain_eq_stateless ps hneg path hfirst
+
+/-- **filtered walk = naive reference** (pruning off, no map function, no negations, any canonical listing) -/
+theorem filtered_walk_equals_reference_without_negations (cfg : F.Cfg) (hp : cfg.prune = false) (hm : cfg.map = [])
+    (hf : (!cfg.inc.isEmpty || !cfg.exc.isEmpty) = true)
+    (hni : ∀ p ∈ cfg.inc, p.neg = false) (hnx : ∀ p ∈ cfg.exc, p.neg = false)
+    (l : List StatE) (hC : C16W.Canon l) :
+    ∀ e, e ∈ F.filterWalk true cfg l ↔ e ∈ F.reference cfg l :=
+  C10W.filterWalk_eq_reference cfg hp hm hf hni hnx l hC
 
 end Fsm.C10
